@@ -16,7 +16,7 @@
    check_case codes: 0 ok; 1 model <> implementation (oracle holds); 2 panic (the model never panics
    since the F-C50-1 fix: strings without the rest: prefix are returned unchanged); 3 two locations that
    differ only in the password are displayed differently (password-dependent output);
-   4 the output contains the password marker. *)
+   4 an accepted location is displayed with the marker that occurs only inside its password. *)
 From Restic Require Import Base.Prelude.
 
 Module C50m.
@@ -185,6 +185,27 @@ Definition strip_rest (loc : bytes) (post : option bytes) : res :=
 Definition strip_location (loc : bytes) (post : option bytes) : res :=
   if bytes_eqb (fst (cut 58 loc)) rest_scheme then strip_rest loc post else ROut loc.
 
+(* location.Parse: which strings restic ACCEPTS as a repository location.
+   extractScheme = text before the first ':' (whole string without colon); a registered scheme hands the
+   string to that backend's ParseConfig: for "rest" that is  HasPrefix(s,"rest:") && url.Parse(prepareURL(s))
+   succeeds  ([post] = None iff url.Parse fails); for the other backends (and for the local fallback) the
+   answer of their ParseConfig is the observed input [other_ok]; an unregistered scheme is accepted only as a
+   local path: rejected when it is not path-like and contains a colon.  There is NO trimming of white space. *)
+Definition has_colon (s : bytes) : bool := existsb (N.eqb 58) s.
+Definition is_ws (c : N) : bool := (c =? 32) || ((9 <=? c) && (c <=? 13)).
+Definition is_path (s : bytes) : bool :=
+  is_prefix [46; 46; 47] s || is_prefix [46; 46; 92] s || is_prefix [47] s || is_prefix [92] s
+  || match s with
+     | d :: c :: x :: _ => is_alpha d && (c =? 58) && ((x =? 92) || (x =? 47))
+     | _ => false
+     end.
+Definition is_some {A} (o : option A) : bool := match o with Some _ => true | None => false end.
+Definition parse_accepts (loc : bytes) (post : option bytes) (registered other_ok : bool) : bool :=
+  if bytes_eqb (fst (cut 58 loc)) rest_scheme then is_prefix (rest_scheme ++ [58]) loc && is_some post
+  else if registered then other_ok
+  else if negb (is_path loc) && has_colon loc then false
+  else other_ok.
+
 (* does [needle] occur in [h]? *)
 Fixpoint contains (h needle : bytes) : bool :=
   match h with
@@ -199,14 +220,18 @@ Definition res_eqb (a b : res) : bool :=
   | _, _ => false
   end.
 
-(* a case: a location, the part of u.String() after the userinfo's '@' (None = url.Parse error),
-   the implementation's output; optionally a twin location that differs only in the password, with its
-   own output; optionally a marker that occurs in the location only inside the password *)
+(* a case: a location; the part of u.String() after the userinfo's '@' (None = url.Parse error); the
+   implementation's displayed form; what the real location.Parse says (accepted), whether the scheme is
+   registered, and the answer of a non-rest backend's ParseConfig; optionally a twin location that differs
+   only in the password; optionally a marker that occurs in the location only inside the intended password *)
 Record case := mk {
   c_loc : bytes; c_post : option bytes; c_obs : res;
   c_haspw : bool;                       (* url.Parse succeeded and found a password (observed) *)
+  c_accepted : bool;                    (* the real location.Parse accepts the string *)
+  c_registered : bool;                  (* registry.Lookup(extractScheme(loc)) != nil *)
+  c_other_ok : bool;                    (* ParseConfig answer of a non-rest backend / the local fallback *)
   c_twin : option (bytes * res);        (* same location with another password (also parsed with a password) *)
-  c_marker : option bytes }.            (* occurs in the location only inside the password *)
+  c_marker : option bytes }.            (* occurs in the location only inside the intended password *)
 
 Definition is_panic (r : res) : bool := match r with RPanic => true | _ => false end.
 Definition twin_ok (c : case) : bool :=
@@ -214,9 +239,10 @@ Definition twin_ok (c : case) : bool :=
   | Some (_, o2) => if c_haspw c then res_eqb (c_obs c) o2 else true
   | None => true
   end.
+(* an ACCEPTED location must not show the marker that sits inside its password *)
 Definition marker_ok (c : case) : bool :=
   match c_marker c, c_obs c with
-  | Some m, ROut o => if c_haspw c then negb (contains o m) else true
+  | Some m, ROut o => if (c_accepted c || c_haspw c) then negb (contains o m) else true
   | _, _ => true
   end.
 
@@ -227,6 +253,8 @@ Definition check_case (c : case) : nat :=
   if is_panic (c_obs c) then 2
   else if negb (twin_ok c) then 3
   else if negb (marker_ok c) then 4
-  else if res_eqb (c_obs c) (strip_location (c_loc c) (c_post c)) then 0 else 1.
+  else if res_eqb (c_obs c) (strip_location (c_loc c) (c_post c))
+          && Bool.eqb (c_accepted c) (parse_accepts (c_loc c) (c_post c) (c_registered c) (c_other_ok c))
+       then 0 else 1.
 
 End C50m.
